@@ -10,7 +10,7 @@ SPEC = {
               quick_n=1200, thorough_n=12000,
               rule="95% sessions of 1..4 requests on a fresh storage directory through the REAL handler built by "
                    "telemetrygodev's newHandler (mux + Log, Timeout, RequestSize, Recover + handleUpload + validate; file "
-                   "system buckets), called via httptest: 85% POST, 15% GET/PUT/DELETE/HEAD/PATCH/OPTIONS/'post'; bodies: "
+                   "system buckets), called via httptest (60% with an honest Content-Length; 36% with http.Request.ContentLength set by hand: -1, 0, one less / one more / 1000 more than the body, the limit, limit+1, 10x limit, 2^26, 2^50, 2^55, 2^62, max int64; 4% from a raw TCP client over a real listener: honest length, chunked coding in 1..3 chunks, an absurd declared length with limit+1 bytes sent): 85% POST, 15% GET/PUT/DELETE/HEAD/PATCH/OPTIONS/'post'; bodies: "
                    "23% valid reports (0..3 approved programs, counters, stacks with frames, X over denormal..1.8e308 and "
                    "negative), 7% kind confusion (one added item of an otherwise valid report: a stack name used as counter, a counter "
                    "used as stack, a counter/stack of the other program, an expansion prefix without bucket, a bucket of another "
@@ -50,8 +50,10 @@ SPEC = {
     "level_note": "No known finding left (null-program-5xx is fixed in /repo by b5cf921 and is an ordinary violation "
                   "class of the oracle again). Not modelled: JSON parsing itself, "
                   "semver, float formatting (oracles; the real answers are supplied per case by the harness), the "
-                  "Timeout middleware (503 after 10 minutes; wall clock), the Log middleware, HTTP transport (the handler "
-                  "is called through httptest.ResponseRecorder: no chunking, no Expect: 100-continue, no aborted "
+                  "Timeout middleware (503 after 10 minutes; wall clock; it also answers 503 when the CLIENT ABORTS: an HTTP message that "
+                  "ends before its declared Content-Length / in the middle of a chunk cancels the request context and "
+                  "http.TimeoutHandler then writes 503 - such a message is not a request with a body and is outside the "
+                  "quantifier, see seeded/builder-notes/C12.md; the suite never sends one), the Log middleware, HTTP transport beyond the sampled real-listener cases (no Expect: 100-continue, no pipelining, no aborted "
                   "connections), the ServeMux path cleaning (URL paths are kept canonical; a non-canonical path is "
                   "answered 3xx by the mux before the handler), I/O errors of the bucket other than name collisions, "
                   "concurrent uploads of the same object (os.Create truncates in place), the GCS backend. The request "
